@@ -20,6 +20,7 @@ import (
 	"errors"
 	"io"
 	"reflect"
+	"strconv"
 	"strings"
 	"sync"
 	"time"
@@ -621,10 +622,55 @@ func readByteJSON(o interface{}) (typeByte byte, rest interface{}, err error) {
 		err = errors.New(gcmn.Fmt("Expected [Byte,?] len 2 but got len %v", len(oSlice)))
 		return
 	}
-	typeByte_, ok := oSlice[0].(float64)
+	typeByte_, _ := jsonInt64(oSlice[0])
 	typeByte = byte(typeByte_)
 	rest = oSlice[1]
 	return
+}
+
+// jsonInt64, jsonUint64 and jsonFloat64 read a decoded JSON number: a json.Number (exact for
+// every 64-bit integer) from this package's own decoding, or a float64 from callers that hand in
+// the result of a plain json.Unmarshal.
+func jsonInt64(o interface{}) (int64, bool) {
+	switch v := o.(type) {
+	case float64:
+		return int64(v), true
+	case json.Number:
+		if i, err := v.Int64(); err == nil {
+			return i, true
+		}
+		if f, err := v.Float64(); err == nil {
+			return int64(f), true
+		}
+	}
+	return 0, false
+}
+
+func jsonUint64(o interface{}) (u uint64, ok bool, negative bool) {
+	switch v := o.(type) {
+	case float64:
+		return uint64(v), true, v < 0
+	case json.Number:
+		if u, err := strconv.ParseUint(string(v), 10, 64); err == nil {
+			return u, true, false
+		}
+		if f, err := v.Float64(); err == nil {
+			return uint64(f), true, f < 0
+		}
+	}
+	return 0, false, false
+}
+
+func jsonFloat64(o interface{}) (float64, bool) {
+	switch v := o.(type) {
+	case float64:
+		return v, true
+	case json.Number:
+		if f, err := v.Float64(); err == nil {
+			return f, true
+		}
+	}
+	return 0, false
 }
 
 // Contract: Caller must ensure that rt is supported
@@ -806,33 +852,33 @@ func readReflectJSON(rv reflect.Value, rt reflect.Type, opts Options, o interfac
 		rv.SetString(str)
 
 	case reflect.Int64, reflect.Int32, reflect.Int16, reflect.Int8, reflect.Int:
-		num, ok := o.(float64)
+		num, ok := jsonInt64(o)
 		if !ok {
 			*err = errors.New(gcmn.Fmt("Expected numeric but got type %v", reflect.TypeOf(o)))
 			return
 		}
 		//log.Info("Read num", "num", num)
-		rv.SetInt(int64(num))
+		rv.SetInt(num)
 
 	case reflect.Uint64, reflect.Uint32, reflect.Uint16, reflect.Uint8, reflect.Uint:
-		num, ok := o.(float64)
+		num, ok, negative := jsonUint64(o)
 		if !ok {
 			*err = errors.New(gcmn.Fmt("Expected numeric but got type %v", reflect.TypeOf(o)))
 			return
 		}
-		if num < 0 {
-			*err = errors.New(gcmn.Fmt("Expected unsigned numeric but got %v", num))
+		if negative {
+			*err = errors.New(gcmn.Fmt("Expected unsigned numeric but got %v", o))
 			return
 		}
 		//log.Info("Read num", "num", num)
-		rv.SetUint(uint64(num))
+		rv.SetUint(num)
 
 	case reflect.Float64, reflect.Float32:
 		if !opts.Unsafe {
 			*err = errors.New("Wire float* support requires `wire:\"unsafe\"`")
 			return
 		}
-		num, ok := o.(float64)
+		num, ok := jsonFloat64(o)
 		if !ok {
 			*err = errors.New(gcmn.Fmt("Expected numeric but got type %v", reflect.TypeOf(o)))
 			return
